@@ -69,7 +69,7 @@ class LabelledRandom:
             else:
                 u = ctx.rng.random()
         if purpose == "baulk":
-            ctx.step("bu", x=int(math.floor(u * U20)), f=(1 if u * U20 == math.floor(u * U20) else 0))
+            ctx.step("bu", x=int(math.floor(u * U20)))
         return u
 
     def select(self, purpose, rc, want):
@@ -106,6 +106,7 @@ class Run:
         self.max_events = max_events
         self.tid = tid
         self.events = []
+        self.recseq = []
         self.outcome = "returned"
         self.crash = None
 
@@ -139,6 +140,7 @@ class Run:
             def step(self_, *a, **k):
                 self.ctx.step(*a, **k)
             tk = self.tk
+            recseq = self.recseq
         kw["individual_class"] = make_individual_class(Lazy(), ciw.Individual)
         trk = sc["tracker"]
         if trk != "none":
@@ -166,6 +168,7 @@ class Run:
             raise
         self.Q = Q
         R = Recorder(Q, self.tk, self.names)
+        R.recseq = self.recseq
         self.R = R
         for a, k in self.ctx.pending:
             R.step(*a, **k)
